@@ -420,17 +420,20 @@ fn rewrite_search(search: Search) -> Search {
             if let Some(head) = pattern.strip_suffix(".*") {
                 pattern = head.to_owned();
             }
-            Search::Regex(
-                RegexBuilder::new(&pattern)
-                    .case_insensitive(insensitive)
-                    .build()
-                    .expect("could not build regex"),
-                insensitive,
-            )
+            // NOTE: Stripping is textual, when what is left is not a valid regex (`.*?a`, `a\.*`)
+            // we must keep the original.
+            match RegexBuilder::new(&pattern)
+                .case_insensitive(insensitive)
+                .build()
+            {
+                Ok(stripped) => Search::Regex(stripped, insensitive),
+                Err(_) => Search::Regex(regex, insensitive),
+            }
         }
         Search::RegexSet(regex, insensitive) => {
             let mut patterns = vec![];
             for pattern in regex.patterns() {
+                let original = pattern.to_owned();
                 let mut pattern = pattern.to_owned();
                 if let Some(tail) = pattern.strip_prefix(".*") {
                     pattern = tail.to_owned();
@@ -438,7 +441,11 @@ fn rewrite_search(search: Search) -> Search {
                 if let Some(head) = pattern.strip_suffix(".*") {
                     pattern = head.to_owned();
                 }
-                patterns.push(pattern);
+                if RegexBuilder::new(&pattern).build().is_ok() {
+                    patterns.push(pattern);
+                } else {
+                    patterns.push(original);
+                }
             }
             Search::RegexSet(
                 RegexSetBuilder::new(patterns)
